@@ -192,7 +192,7 @@ def rand_ops(r, n, timed, length):
                 # that growth, so the number of propagations per history is bounded by the trajectory length
                 # (long propagations are covered by the exact-grid stream `long-grid`, where the numbers stay small)
                 props += 1
-                if props > (3 if n <= 5 else 2 if n <= 12 else 1) or n > 40:
+                if props > (3 if n <= 4 else 2 if n <= 7 else 1) or n > 40:
                     mode = "R"
             T = rand_transform(r, r.choice(["se3", "se3", "sim3"]))
             if mode == "P":
@@ -274,12 +274,13 @@ def gen_cases(ctx):
         # at most two Sim(3) propagations (each doubles the scale along the path)
         # and no propagation after an operation whose parameters are inexact floats (Umeyama result, projected
         # rotations) on long trajectories: the exact rationals of a propagated chain grow with the pose index
-        seen, dirty = 0, False
+        seen, dirty, after = 0, False, 0
         for i, o in enumerate(hist):
             if o["op"] in ("al", "pj"):
                 dirty = True
             if o["op"] == "tf" and o["mode"] == "P":
-                if dirty and n > 40:
+                after += 1 if dirty else 0
+                if dirty and (n > 12 or after > 1):
                     hist[i] = full[1]
                 elif o["T"] == full[5]["T"]:
                     seen += 1
@@ -555,7 +556,7 @@ class Tol:
     coordinate involved and multiplies what is already there by the amplification of the operation (scale factors > 1;
     a Sim(3) propagation multiplies by the scale once per pose)"""
     def __init__(self, n):
-        self.n, self.k, self.mag, self.err, self.last = n, 0, 1.0, 0.0, 1.0
+        self.n, self.k, self.mag, self.err, self.last, self.rerr = n, 0, 1.0, 0.0, 1.0, 8 * U
 
     def see(self, snap, op=None):
         self.k += 1
@@ -577,10 +578,14 @@ class Tol:
             amp = max(1.0, abs(op["s"]))
         if op and op["op"] == "al":
             amp = 4.0 * ratio      # scale correction multiplies the positions (and their error) by c
-        self.err = amp * (self.err + 32 * U * (self.n + 1) * self.mag)
+        # rotations: a few ulps per step; a propagation chains n products, so whatever deviation from orthonormality is
+        # already there (and the new rounding) accumulates along the path — repeated propagation compounds it
+        prop = bool(op) and op["op"] == "tf" and op["mode"] == "P"
+        self.rerr = 2 * (self.n + 1) * (self.rerr + 8 * U) if prop else self.rerr + 8 * U
+        self.err = amp * (self.err + 32 * U * (self.n + 1) * self.mag) + 2 * self.rerr * self.mag * ((self.n + 1) if prop else 1)
 
     def rot(self):
-        return 8 * U * (self.k + 1) * (self.n + 1)
+        return self.rerr + 8 * U * (self.k + 1)
 
     def pos(self):
         return self.err
@@ -990,7 +995,7 @@ def check(ctx):
             "evo's sim3_scale(T)); rigid_preserved is proved for T = sim3(R,t,s) with that s, the cube root itself is not modelled",
             "selected ids (downsample / motion filter / crop), the Umeyama triple and the projected rotations are parameters of the "
             "operation obtained from evo (properties C11, C03, C14)",
-            "float rounding: reads are compared with the exact rational value within a carried error bound (rotations 8·2^-53·(steps+1)·(poses+1); positions 32·2^-53·(poses+1)·largest coordinate added per step, amplified by scale factors)",
+            "float rounding: reads are compared with the exact rational value within a carried error bound (rotations 8·2^-53 per step, times 2·(poses+1) per propagation; positions 32·2^-53·(poses+1)·largest coordinate added per step, amplified by scale factors)",
         ],
         assumptions=["constructor arguments are consistent (rigid matrices / unit quaternions, equal lengths, ascending stamps)",
                      "ids passed to reduce_to_ids are valid indices"])
